@@ -373,7 +373,7 @@ theorem doAwaitStatusResponse_next (c c' : Ctx) (now : Int) (a : Nat) (hst : c.s
 
 /-! ## One whole poll, any start state -/
 
-theorem wake_holding (s : Station) (h : Holding s.wake) : Holding s := by
+theorem wake_holding (s : Station) (h : AppHolding s.wake) : AppHolding s := by
   rcases wake_cases s with hw | ⟨hw, -⟩
   · rw [hw] at h; exact h
   · rw [hw] at h
@@ -382,7 +382,7 @@ theorem wake_holding (s : Station) (h : Holding s.wake) : Holding s := by
 /-- A poll that does not start inside a token visit keeps the turn — or resets it to application 0
 (duplicate-address detection in `ListenToken` → `set_offline`). -/
 theorem poll_keep (s : Station) (apps : Apps) (now : Int) (phy : Bool) (rx : Bytes) (c' : Ctx)
-    (hh : ¬ Holding s) (h : s.poll apps now phy rx = .ok c') :
+    (hh : ¬ AppHolding s) (h : s.poll apps now phy rx = .ok c') :
     c'.s.nextApp = s.nextApp ∨ c'.s.nextApp = 0 := by
   unfold Station.poll pollInner at h
   cases hon : s.online with
@@ -397,7 +397,7 @@ theorem poll_keep (s : Station) (apps : Apps) (now : Int) (phy : Bool) (rx : Byt
     subst this
     rcases ite_inv h with ⟨_, h⟩ | ⟨_, h⟩
     · cases h; exact .inl (by simp [upd, markBA_nextApp, wake_nextApp])
-    · have hh' : ¬ Holding s.wake := fun hw => hh (wake_holding s hw)
+    · have hh' : ¬ AppHolding s.wake := fun hw => hh (wake_holding s hw)
       have hon1 : (checkBusActivity s.wake now rx.length).online = true := by rw [checkBA_online, wake_online]; exact hon
       have hn1 : (checkBusActivity s.wake now rx.length).nextApp = s.nextApp := by rw [checkBA_nextApp, wake_nextApp]
       unfold dispatch at h
@@ -533,7 +533,7 @@ theorem turn_step (w w' : World) (a : ApiCall) (l : List AppCall) (hs : w.stepLo
     · rename_i c hc
       cases hs
       refine ⟨?_, (poll_frame _ _ _ _ _ _ hc).2⟩
-      by_cases hh : Holding w.s
+      by_cases hh : AppHolding w.s
       · exact walkR_of_walk _ _ _ _ (poll_walk _ _ _ _ _ _ hh hc).1
       · have hk := poll_keep _ _ _ _ _ _ hh hc
         rcases poll_calls _ _ _ _ _ _ hc with ⟨h0, -⟩ | ⟨-, hu, -, -⟩ | ⟨-, x, d, hst, -⟩
